@@ -178,7 +178,7 @@ def run_tlc(workdir, name, module, cfg, workers=1, simulate=None, seed=None, tim
 # --------------------------------------------------------------------------------------
 # replay (spec -> code)
 # --------------------------------------------------------------------------------------
-def replay(cases_path, profile="dev", elem="elem", cap=0, extra_args=(), per_case_timeout=20, total_timeout=3600):
+def replay(cases_path, profile="dev", elem="elem", cap=0, extra_args=(), per_case_timeout=20, total_timeout=3600, max_failures=150):
     """Run the replay binary over a cases file.  Survives aborts/hangs of the code under test:
     the case that killed the process is recorded as a failure of kind 'abort' / 'hang'.
     Returns (n_cases_run, failures[list of dict])."""
@@ -214,6 +214,12 @@ def replay(cases_path, profile="dev", elem="elem", cap=0, extra_args=(), per_cas
                 d = json.loads(line[2:])
                 d["profile"] = profile
                 failures.append(d)
+                if len(failures) >= max_failures:
+                    # enough evidence; do not grind through thousands of failing cases
+                    state["killed"] = True
+                    p.kill()
+                    p.wait()
+                    return ran + (last - start + 1 if last is not None else 0), failures
             elif line.startswith("DONE "):
                 parts = line.split()
                 ran += int(parts[1])
@@ -227,6 +233,8 @@ def replay(cases_path, profile="dev", elem="elem", cap=0, extra_args=(), per_cas
         if time.time() > t_end:
             raise ToolError("replay exceeded total timeout")
         kind = "hang" if state["killed"] else "abort"
+        if len(failures) >= max_failures:
+            return ran + last - start + 1, failures
         failures.append({"case": last, "elem": elem, "cap": cap, "profile": profile,
                          "fails": [{"step": -1, "kind": kind, "detail": {"returncode": p.returncode}}]})
         ran += last - start + 1
@@ -290,3 +298,85 @@ def match_known(known, prop, sig):
         if all(sig.get(key) == val for key, val in m.items()):
             return k
     return None
+
+
+# --------------------------------------------------------------------------------------
+# trace validation (code -> spec)
+# --------------------------------------------------------------------------------------
+def validate_trace(workdir, name, module, log_path, invariants=(), timeout=1800, max_rounds=12, xmx="8g"):
+    """Validate an ndjson event log against spec/<module>.tla.  The trace specification is deterministic; TLC
+    reports a deadlock at the first event it cannot explain.  That event's case is recorded, its events are
+    removed, and validation is repeated so that the REST of the trace is checked too.
+    Returns (events_validated, rejected[list of dict(line, event, case)], states)."""
+    os.makedirs(workdir, exist_ok=True)
+    cfgp = os.path.join(workdir, name + ".cfg")
+    with open(cfgp, "w") as f:
+        f.write("SPECIFICATION Spec\n" + ("INVARIANTS " + " ".join(invariants) + "\n" if invariants else ""))
+    rejected = []
+    cur = log_path
+    total_states = 0
+    events_ok = 0
+    for rnd in range(max_rounds):
+        n = count_lines(cur)
+        if n == 0:
+            break
+        outp = os.path.join(workdir, "%s.round%d.out" % (name, rnd))
+        meta = os.path.join(workdir, name + ".trstates")
+        cmd = ["java", "-XX:+UseParallelGC", "-Xss512m", "-Xmx" + xmx, "-cp", TLA_CP, "tlc2.TLC", "-workers", "1",
+               "-metadir", meta, "-cleanup", "-noGenerateSpecTE", "-config", cfgp, os.path.join(SPEC, module + ".tla")]
+        env = dict(os.environ, TRACE=cur)
+        t0 = time.time()
+        with open(outp, "w") as fo:
+            try:
+                p = subprocess.run(cmd, cwd=SPEC, env=env, stdout=fo, stderr=subprocess.STDOUT, timeout=timeout)
+            except subprocess.TimeoutExpired:
+                raise ToolError("TLC trace validation timed out: %s" % " ".join(cmd))
+        subprocess.run(["rm", "-rf", meta])
+        text = open(outp, errors="replace").read()
+        m = re.search(r"(\d+) states generated, (\d+) distinct states found", text)
+        if m:
+            total_states += int(m.group(2))
+        log("[trace] %s round %d: %d events, rc=%d, %.1fs" % (name, rnd, n, p.returncode, time.time() - t0))
+        if p.returncode == 0:
+            events_ok += n
+            return events_ok, rejected, total_states
+        if "Deadlock reached" in text or "deadlock" in text.lower():
+            ls = re.findall(r"^/\\ l = (\d+)", text, re.M)
+            if not ls:
+                raise ToolError("trace validation: deadlock without a position, see %s" % outp)
+            line = int(ls[-1])  # 1-based index of the event that could not be explained
+            ev = None
+            with open(cur) as f:
+                for i, t in enumerate(f, 1):
+                    if i == line:
+                        ev = json.loads(t)
+                        break
+            case = ev.get("case") if ev else None
+            rejected.append({"line": line, "event": ev, "case": case, "round": rnd})
+            events_ok += line - 1
+            # drop every event of that case (or, without case ids, everything up to the next reset) and continue
+            nxt = os.path.join(workdir, "%s.round%d.ndjson" % (name, rnd + 1))
+            with open(cur) as fi, open(nxt, "w") as fo:
+                skipping = False
+                for i, t in enumerate(fi, 1):
+                    if i <= line:
+                        continue
+                    e = json.loads(t)
+                    if case is not None:
+                        if e.get("case") == case:
+                            continue
+                    else:
+                        if i == line + 1:
+                            skipping = True
+                        if skipping and e.get("ev") != "reset":
+                            continue
+                        skipping = False
+                    fo.write(t)
+            cur = nxt
+            continue
+        if "is violated" in text:
+            rejected.append({"line": None, "event": None, "case": None, "round": rnd, "invariant_violated": text[-3000:]})
+            return events_ok, rejected, total_states
+        raise ToolError("TLC trace validation failed (rc=%s), see %s\n%s" % (p.returncode, outp, text[-2000:]))
+    rejected.append({"line": None, "event": None, "case": None, "round": max_rounds, "note": "more rejections may exist (round limit reached)"})
+    return events_ok, rejected, total_states
